@@ -23,9 +23,12 @@ m = dict(
     not_applicable=[],
     notes="All checks: exit 0 held / exit 1 + VIOLATION line / exit 2 inconclusive (harness build failure, time-out, empty required class). Known findings: /verif/known_findings.json.",
 )
+# Only properties listed in config/ENABLED are claimed (harnesses under
+# construction are loadable by ./check but not registered).
+ENABLED = set(open(os.path.join(os.path.dirname(os.path.abspath(__file__)), "config", "ENABLED")).read().split())
 for pid in ALL:
     c = CHECKS.get(pid)
-    if not c:
+    if not c or pid not in ENABLED:
         m["not_applicable"].append(dict(property_id=pid, reason=NOT_BUILT))
         continue
     m["checks"].append(dict(
